@@ -58,6 +58,11 @@ fn out_oracle(c: &Out) -> Verdict {
         ensure!((cd < 0 && v <= 0.0) || (cd > 0 && v >= 0.0) || (cd == 0 && v == 0.0), "to_unit({}) of count {} has the wrong sign: {:e}", UNIT_NAMES[u], cd, v);
         let vb = lib!(b.to_unit(UNITS[u]));
         ensure!(v <= vb, "to_unit({}) not monotone: count {} -> {:e}, count {} -> {:e}", UNIT_NAMES[u], cd, v, cb, vb);
+        // the unit's own value in seconds (one unit converted to floating-point seconds) and its reciprocal
+        let us = lib!(UNITS[u].in_seconds());
+        ensure!(abs_err_vs_rational(us, UNIT_NS[u], NS_S) <= 4.0 * ulp(us), "Unit::{:?}.in_seconds() = {:e}, want {} ns / 1e9", UNITS[u], us, UNIT_NS[u]);
+        let ur = lib!(UNITS[u].from_seconds());
+        ensure!(abs_err_vs_rational(ur, NS_S, UNIT_NS[u]) <= 4.0 * ulp(ur), "Unit::{:?}.from_seconds() = {:e}, want 1e9 / {} ns", UNITS[u], ur, UNIT_NS[u]);
     }
     let class = if cd.abs() > (1i128 << 53) { "|count|>2^53" } else if cd < 0 { "negative" } else if cd.abs() < NS_S { "sub-second" } else { "plain" };
     Verdict::Pass(class, class != "plain")
